@@ -465,20 +465,20 @@ pub fn main(mode: Mode) -> i32 {
             ctx.run_known_reproducers(&hostile);
             let (cases, skipped) = corpus_cases(false);
             ctx.note_excluded("corpus programs with //= ignore", skipped as u64);
-            // quick: every fourth corpus program (which quarter depends on the seed); thorough: all of them
+            // quick: every sixth corpus program (which sixth depends on the seed); thorough: all of them
             let total_corpus = cases.len();
             let cases: Vec<_> = if ctx.thorough() {
                 cases
             } else {
-                let step = if std::env::var("VERIF_SCALE").is_ok() { 10 } else { 4 };
+                let step = if std::env::var("VERIF_SCALE").is_ok() { 10 } else { 6 };
                 cases.into_iter().skip((ctx.seed % step as u64) as usize).step_by(step).collect()
             };
             ctx.extra.insert("corpus_programs_total".into(), json!(total_corpus));
             ctx.extra.insert("corpus_programs_run".into(), json!(cases.len()));
             ctx.run_enum(&corpus_p, cases);
-            let n = ctx.n(300, 6000);
+            let n = ctx.n(200, 6000);
             ctx.run_search(&hostile, n, 40, 0);
-            let n = ctx.n(100, 3000);
+            let n = ctx.n(70, 3000);
             ctx.run_search(&mutants, n, 60, 0);
             let n = ctx.n(60, 3000);
             ctx.run_search(&wide, n, 2500, 30);
